@@ -204,6 +204,20 @@ Proof.
         (conj keyboard_key_spec (conj dec_devattrs_spec (conj dec_kitty_image_spec dec_osc_palette_spec))))))).
 Qed.
 
+(* SGR mouse reports: button name and modifier set in the arithmetic of the protocol (low two bits =
+   button, +4 shift, +8 alt, +16 ctrl, +64 wheel; final `M` = press) *)
+Theorem C02_mouse_protocol : forall data name mode row col,
+  dec_mouse data = Ok (RSome (PMouse name mode row col)) ->
+  exists body e rest last,
+    mid data 3 1 = Ok body /\ numbers_decode body 59 = e :: (col + 1) :: (row + 1) :: rest /\
+    index data (length data - 1) = Ok last /\
+    mode = (e / 4) mod 8 + (if last =? 77 then 256 else 0) /\
+    name = (let button := e mod 4 in
+            if N.testbit e 6
+            then (if button =? 0 then 4 else if button =? 1 then 5 else 3)
+            else if button =? 3 then 3 else button).
+Proof. exact dec_mouse_protocol. Qed.
+
 (* unrecognised input surfaces as raw events whose bytes occur in the input in order: all spans,
    recognised or raw, followed by the pending bytes, are the input *)
 Theorem C02_spans_in_order : forall s : list N,
